@@ -28,6 +28,10 @@ package writeback
 // The flush filter.
 //@ pred c17Sel(f, wl, wi, s, w) = sets(f)[s].Blocks[w].IsValid && sets(f)[s].Blocks[w].IsDirty && (fpid(f) == 0 || sets(f)[s].Blocks[w].PID == fpid(f)) && (len(fa(f)) == 0 || c17AddrSel(f, wl, wi, sets(f)[s].Blocks[w].Tag))
 // (s, w) has been visited when the cursor stands at set cs, way cw (inclusive).
+// Index of (s, w) in the list while set cs is being walked: earlier sets are recorded in pos, the current one in posI.
+//@ func c17Eff(pos, posI, cs, s, w) = (s < cs ? pos[c17Pair(s, w)] : posI[c17Pair(s, w)])
+// (set, way) order
+//@ pred c17Less(s1, w1, s2, w2) = s1 < s2 || (s1 == s2 && w1 < w2)
 //@ pred c17Vis(s, w, cs, cw) = s < cs || (s == cs && w <= cw)
 
 //@ fn (*flusher).prepareBlockToFlushList
@@ -35,6 +39,8 @@ package writeback
 //@   requires f != nil && f.pipeline != nil && f.pipeline.comp != nil
 //@   requires f.pipeline.comp.spec.Log2BlockSize < 64
 //@   requires ref(evl(f)) != ref(fll(f)) || cap(evl(f)) == 0
+//     a tautology of Go (a length is an int); stated because lengths under a quantifier carry no type bound in the engine
+//@   requires forall s in 0..len(sets(f)) :: len(sets(f)[s].Blocks) <= MaxInt64
 //@   label C17.select.panics
 //@   panics !(forall s in 0..len(sets(f)) :: forall w in 0..len(sets(f)[s].Blocks) :: !c17Busy(f, s, w))
 //@   witness bs int = blockSize
@@ -57,7 +63,7 @@ package writeback
 //@   label C17.select.complete
 //@   ensures forall s in 0..len(sets(f)) :: forall w in 0..len(sets(f)[s].Blocks) :: c17Sel(f, wl, wi, s, w) ==> old(len(evl(f))) <= pos[c17Pair(s, w)] && pos[c17Pair(s, w)] < len(evl(f)) && evl(f)[pos[c17Pair(s, w)]].SetID == s && evl(f)[pos[c17Pair(s, w)]].WayID == w
 //@   label C17.select.order
-//@   ensures forall i in old(len(evl(f)))..len(evl(f)) - 1 :: c17Pair(evl(f)[i].SetID, evl(f)[i].WayID) < c17Pair(evl(f)[i + 1].SetID, evl(f)[i + 1].WayID)
+//@   ensures forall i in old(len(evl(f)))..len(evl(f)) - 1 :: c17Less(evl(f)[i].SetID, evl(f)[i].WayID, evl(f)[i + 1].SetID, evl(f)[i + 1].WayID)
 //@   assigns f.pipeline.comp.State.FlusherBlockToEvictRefs, f.pipeline.comp.State.ProcessingFlush.FlushedRefs, elems(f.pipeline.comp.State.FlusherBlockToEvictRefs), elems(f.pipeline.comp.State.ProcessingFlush.FlushedRefs)
 //
 //     loop 0 builds the set of line-aligned filter addresses
@@ -71,3 +77,81 @@ package writeback
 //@   loop 0: invariant len(matchAddr) >= 0 && (len(matchAddr) > 0 <==> rangeindex >= 0)
 //@   loop 0: invariant forall j in 0..rangeindex + 1 :: c17LineOf(f, blockSize, wl, wq, j) && (wl[j] in matchAddr)
 //@   loop 0: invariant forall k int :: (k in matchAddr) ==> matchAddr[k] && 0 <= wi[k] && wi[k] <= rangeindex && wl[wi[k]] == k
+//
+//     loop 1 walks the sets (rangeindex = last finished set), loop 2 the ways of set `setID`
+//@   loop 1: ghost pos = idperm
+//@   loop 1: backedge pos = mapof(p, p >= setID * c17PW ? posI[p] : pos[p])
+//@   loop 1: invariant -1 <= rangeindex && rangeindex < len(sets(f))
+//@   loop 1: invariant (ref(evl(f)) != ref(fll(f)) || cap(evl(f)) == 0) && ref(evl(f)) <= allocTop && ref(fll(f)) <= allocTop && (ref(evl(f)) == old(ref(evl(f))) || fresh(evl(f))) && (ref(fll(f)) == old(ref(fll(f))) || fresh(fll(f)))
+//@   loop 1: invariant len(evl(f)) >= old(len(evl(f))) && len(evl(f)) - old(len(evl(f))) == len(fll(f)) - old(len(fll(f)))
+//@   loop 1: invariant forall i in 0..old(len(evl(f))) :: evl(f)[i].SetID == old(evl(f)[i].SetID) && evl(f)[i].WayID == old(evl(f)[i].WayID)
+//@   loop 1: invariant forall i in 0..old(len(fll(f))) :: fll(f)[i].SetID == old(fll(f)[i].SetID) && fll(f)[i].WayID == old(fll(f)[i].WayID)
+//@   loop 1: invariant forall i in old(len(evl(f)))..len(evl(f)) :: fll(f)[i - old(len(evl(f))) + old(len(fll(f)))].SetID == evl(f)[i].SetID && fll(f)[i - old(len(evl(f))) + old(len(fll(f)))].WayID == evl(f)[i].WayID
+//@   loop 1: invariant forall i in old(len(evl(f)))..len(evl(f)) :: 0 <= evl(f)[i].SetID && evl(f)[i].SetID <= rangeindex && 0 <= evl(f)[i].WayID && evl(f)[i].WayID < len(sets(f)[evl(f)[i].SetID].Blocks) && c17Sel(f, wl, wi, evl(f)[i].SetID, evl(f)[i].WayID) && pos[c17Pair(evl(f)[i].SetID, evl(f)[i].WayID)] == i
+//@   loop 1: invariant forall s in 0..rangeindex + 1 :: forall w in 0..len(sets(f)[s].Blocks) :: c17Sel(f, wl, wi, s, w) ==> old(len(evl(f))) <= pos[c17Pair(s, w)] && pos[c17Pair(s, w)] < len(evl(f)) && evl(f)[pos[c17Pair(s, w)]].SetID == s && evl(f)[pos[c17Pair(s, w)]].WayID == w
+//@   loop 1: invariant forall i in old(len(evl(f)))..len(evl(f)) - 1 :: c17Less(evl(f)[i].SetID, evl(f)[i].WayID, evl(f)[i + 1].SetID, evl(f)[i + 1].WayID)
+//@   loop 1: invariant forall s in 0..rangeindex + 1 :: forall w in 0..len(sets(f)[s].Blocks) :: !c17Busy(f, s, w)
+//
+//@   loop 2: ghost posI = idperm
+//@   loop 2: backedge posI = len(evl(f)) > athead(len(evl(f))) ? upd(posI, c17Pair(setID, wayID), athead(len(evl(f)))) : posI
+//@   loop 2: invariant 0 <= setID && setID < len(sets(f)) && -1 <= rangeindex && rangeindex < len(sets(f)[setID].Blocks)
+//@   loop 2: invariant ref(set.Blocks) == ref(sets(f)[setID].Blocks) && off(set.Blocks) == off(sets(f)[setID].Blocks) && len(set.Blocks) == len(sets(f)[setID].Blocks)
+//@   loop 2: invariant (ref(evl(f)) != ref(fll(f)) || cap(evl(f)) == 0) && ref(evl(f)) <= allocTop && ref(fll(f)) <= allocTop && (ref(evl(f)) == old(ref(evl(f))) || fresh(evl(f))) && (ref(fll(f)) == old(ref(fll(f))) || fresh(fll(f)))
+//@   loop 2: invariant len(evl(f)) >= old(len(evl(f))) && len(evl(f)) - old(len(evl(f))) == len(fll(f)) - old(len(fll(f)))
+//@   loop 2: invariant forall i in 0..old(len(evl(f))) :: evl(f)[i].SetID == old(evl(f)[i].SetID) && evl(f)[i].WayID == old(evl(f)[i].WayID)
+//@   loop 2: invariant forall i in 0..old(len(fll(f))) :: fll(f)[i].SetID == old(fll(f)[i].SetID) && fll(f)[i].WayID == old(fll(f)[i].WayID)
+//@   loop 2: invariant forall i in old(len(evl(f)))..len(evl(f)) :: fll(f)[i - old(len(evl(f))) + old(len(fll(f)))].SetID == evl(f)[i].SetID && fll(f)[i - old(len(evl(f))) + old(len(fll(f)))].WayID == evl(f)[i].WayID
+//@   loop 2: invariant forall i in old(len(evl(f)))..len(evl(f)) :: 0 <= evl(f)[i].SetID && c17Vis(evl(f)[i].SetID, evl(f)[i].WayID, setID, rangeindex) && 0 <= evl(f)[i].WayID && evl(f)[i].WayID < len(sets(f)[evl(f)[i].SetID].Blocks) && c17Sel(f, wl, wi, evl(f)[i].SetID, evl(f)[i].WayID) && c17Eff(pos, posI, setID, evl(f)[i].SetID, evl(f)[i].WayID) == i
+//@   loop 2: invariant forall s in 0..setID + 1 :: forall w in 0..len(sets(f)[s].Blocks) :: c17Vis(s, w, setID, rangeindex) && c17Sel(f, wl, wi, s, w) ==> old(len(evl(f))) <= c17Eff(pos, posI, setID, s, w) && c17Eff(pos, posI, setID, s, w) < len(evl(f)) && evl(f)[c17Eff(pos, posI, setID, s, w)].SetID == s && evl(f)[c17Eff(pos, posI, setID, s, w)].WayID == w
+//@   loop 2: invariant forall i in old(len(evl(f)))..len(evl(f)) - 1 :: c17Less(evl(f)[i].SetID, evl(f)[i].WayID, evl(f)[i + 1].SetID, evl(f)[i + 1].WayID)
+//@   loop 2: invariant forall s in 0..setID + 1 :: forall w in 0..len(sets(f)[s].Blocks) :: c17Vis(s, w, setID, rangeindex) ==> !c17Busy(f, s, w)
+
+// ---- processFlush: the head of the list becomes one eviction transaction ----
+//@ func txs(s) = s.Transactions
+//@ fn (*State).indexHasInflightBottomTransaction
+//@   requires s != nil
+//@   assigns nothing
+
+// allocTransaction stores t in a slot that holds no live transaction (a Removed one, or a new last one) and returns
+// its index; every other slot keeps its transaction.
+//@ pred c17TxIs(s, k, t) = txs(s)[k].HasFlush == t.HasFlush && txs(s)[k].HasVictim == t.HasVictim && txs(s)[k].VictimPID == t.VictimPID && txs(s)[k].VictimTag == t.VictimTag && txs(s)[k].VictimCacheAddress == t.VictimCacheAddress && txs(s)[k].Action == t.Action && txs(s)[k].EvictingPID == t.EvictingPID && txs(s)[k].EvictingAddr == t.EvictingAddr && ref(txs(s)[k].EvictingDirtyMask) == ref(t.EvictingDirtyMask) && off(txs(s)[k].EvictingDirtyMask) == off(t.EvictingDirtyMask) && len(txs(s)[k].EvictingDirtyMask) == len(t.EvictingDirtyMask) && txs(s)[k].BlockSetID == t.BlockSetID && txs(s)[k].BlockWayID == t.BlockWayID && txs(s)[k].HasBlock == t.HasBlock && txs(s)[k].Removed == t.Removed
+//@ pred c17TxKept(s, k) = txs(s)[k].Removed == old(txs(s)[k].Removed) && txs(s)[k].Action == old(txs(s)[k].Action) && txs(s)[k].HasFlush == old(txs(s)[k].HasFlush) && txs(s)[k].EvictingAddr == old(txs(s)[k].EvictingAddr) && txs(s)[k].EvictingPID == old(txs(s)[k].EvictingPID) && txs(s)[k].BlockSetID == old(txs(s)[k].BlockSetID) && txs(s)[k].BlockWayID == old(txs(s)[k].BlockWayID)
+//@ fn (*State).allocTransaction
+//@   property C17
+//@   requires s != nil
+//@   label C17.alloc.slot
+//@   ensures 0 <= result && result < len(txs(s)) && (result < old(len(txs(s))) ? len(txs(s)) == old(len(txs(s))) && old(txs(s)[result].Removed) : result == old(len(txs(s))) && len(txs(s)) == old(len(txs(s))) + 1)
+//@   label C17.alloc.stored
+//@   ensures c17TxIs(s, result, t)
+//@   label C17.alloc.others
+//@   ensures forall k in 0..old(len(txs(s))) :: k != result ==> c17TxKept(s, k)
+//@   assigns s.Transactions, elems(s.Transactions)
+//@   loop 0: invariant -1 <= rangeindex && rangeindex < len(txs(s)) && len(txs(s)) == old(len(txs(s))) && ref(txs(s)) == old(ref(txs(s))) && off(txs(s)) == old(off(txs(s)))
+//@   loop 0: invariant forall k in 0..len(txs(s)) :: c17TxKept(s, k)
+
+//@ func bufs(f) = f.pipeline.comp.State.DirToBankBufs
+//@ func c17Bank(f) = (evl(f)[0].SetID * f.pipeline.comp.spec.WayAssociativity + evl(f)[0].WayID) % len(bufs(f))
+//@ pred c17HeadOK(f) = 0 <= evl(f)[0].SetID && evl(f)[0].SetID < len(sets(f)) && 0 <= evl(f)[0].WayID && evl(f)[0].WayID < len(sets(f)[evl(f)[0].SetID].Blocks) && len(bufs(f)) > 0 && 0 <= f.pipeline.comp.spec.WayAssociativity && evl(f)[0].SetID * f.pipeline.comp.spec.WayAssociativity + evl(f)[0].WayID <= MaxInt64
+//@ pred c17CanPush(f) = len(bufs(f)[c17Bank(f)].elements) < bufs(f)[c17Bank(f)].cap
+// transaction k evicts block (s, w): it carries the block's PID, tag, cache address and dirty mask (the same slice)
+//@ pred c17Evicts(f, k, s, w) = txs(f.pipeline.comp.State)[k].HasFlush && txs(f.pipeline.comp.State)[k].HasVictim && txs(f.pipeline.comp.State)[k].HasBlock && !txs(f.pipeline.comp.State)[k].Removed && txs(f.pipeline.comp.State)[k].Action == bankEvict && txs(f.pipeline.comp.State)[k].BlockSetID == s && txs(f.pipeline.comp.State)[k].BlockWayID == w
+//@   && txs(f.pipeline.comp.State)[k].VictimPID == sets(f)[s].Blocks[w].PID && txs(f.pipeline.comp.State)[k].EvictingPID == sets(f)[s].Blocks[w].PID && txs(f.pipeline.comp.State)[k].VictimTag == sets(f)[s].Blocks[w].Tag && txs(f.pipeline.comp.State)[k].EvictingAddr == sets(f)[s].Blocks[w].Tag
+//@   && txs(f.pipeline.comp.State)[k].VictimCacheAddress == sets(f)[s].Blocks[w].CacheAddress && ref(txs(f.pipeline.comp.State)[k].EvictingDirtyMask) == ref(sets(f)[s].Blocks[w].DirtyMask) && off(txs(f.pipeline.comp.State)[k].EvictingDirtyMask) == off(sets(f)[s].Blocks[w].DirtyMask) && len(txs(f.pipeline.comp.State)[k].EvictingDirtyMask) == len(sets(f)[s].Blocks[w].DirtyMask)
+//@ fn (*flusher).processFlush
+//@   property C17
+//@   requires f != nil && f.pipeline != nil && f.pipeline.comp != nil
+//@   requires len(evl(f)) > 0 ==> c17HeadOK(f) && queueing.bufWF(bufs(f)[c17Bank(f)])
+//@   witness tix int = transIdx
+//@   label C17.flush.progress
+//@   ensures result <==> old(len(evl(f)) > 0 && c17CanPush(f))
+//@   label C17.flush.blocked
+//@   ensures !result ==> len(evl(f)) == old(len(evl(f))) && ref(evl(f)) == old(ref(evl(f))) && off(evl(f)) == old(off(evl(f))) && len(txs(f.pipeline.comp.State)) == old(len(txs(f.pipeline.comp.State)))
+//@   label C17.flush.consumed
+//@   ensures result ==> len(evl(f)) == old(len(evl(f))) - 1 && (forall i in 0..len(evl(f)) :: evl(f)[i].SetID == old(evl(f)[i + 1].SetID) && evl(f)[i].WayID == old(evl(f)[i + 1].WayID))
+//@   label C17.flush.transaction
+//@   ensures result ==> 0 <= tix && tix < len(txs(f.pipeline.comp.State)) && len(txs(f.pipeline.comp.State)) <= old(len(txs(f.pipeline.comp.State))) + 1 && c17Evicts(f, tix, old(evl(f)[0].SetID), old(evl(f)[0].WayID))
+//@   label C17.flush.others
+//@   ensures forall k in 0..old(len(txs(f.pipeline.comp.State))) :: result && k != tix ==> c17TxKept(f.pipeline.comp.State, k)
+//@   label C17.flush.queued
+//@   ensures result ==> len(bufs(f)[old(c17Bank(f))].elements) == old(len(bufs(f)[c17Bank(f)].elements)) + 1 && bufs(f)[old(c17Bank(f))].elements[old(len(bufs(f)[c17Bank(f)].elements))] == tix
+//@   assigns f.pipeline.comp.State.FlusherBlockToEvictRefs, f.pipeline.comp.State.Transactions, elems(f.pipeline.comp.State.Transactions), elems(f.pipeline.comp.State.DirToBankBufs), key("E|int|")
